@@ -283,6 +283,9 @@ fn berr(e: &PacketBuilderError) -> &'static str {
         PacketBuilderError::WrongFrameType => "WrongFrameType",
         PacketBuilderError::DeviceAddressMismatch => "DeviceAddressMismatch",
         PacketBuilderError::MissingFrames => "MissingFrames",
+        // a variant this harness does not know (an enum extended by the code under test): reported as such, never a build failure
+        #[allow(unreachable_patterns)]
+        _ => "OtherBuilderError",
     }
 }
 
@@ -1160,9 +1163,12 @@ fn poll_loop(mut get: impl FnMut() -> Result<Packet, InterfaceError>, remaining:
             }
             Ok(Err(InterfaceError::NoPacketReceived)) => ("nothing".to_string(), remaining() == 0),
             Ok(Err(e)) => {
+                // in the heap scenarios a reported reassembly error is told apart (C19: right after one the receiver holds
+                // what a fresh one holds)
+                let builder = heap && matches!(e, InterfaceError::BuilderError(_));
                 // the error value may own heap memory (an `io::Error` made by the mock device): release it before measuring
                 drop(e);
-                ("err".to_string(), false)
+                (if builder { "errB" } else { "err" }.to_string(), false)
             }
         };
         if heap {
